@@ -319,7 +319,7 @@ def compile1 (chk : Nat) : Desc → CRegs → CM COut
                 | .ok (body, c1) =>
                   if decide (chk ≠ 0) && !(scopeOk (decide (chk = 2)) (cElement fe pc.2).2 body c1 (compileList chk ms c1)) then .error .other
                   else .ok ((cElement fe pc.2).1 ++ [.loop .factor body], c1)
-              | _ => .error .other
+              | _ => .error .unknownDescr
             | .op id =>
               -- scope check only: a marker operator met while the QA status is not `na` is outside the class
               if decide (chk ≠ 0) && isMarkerOp id && decide (pc.2.qa ≠ .na) then .error .other
